@@ -25,6 +25,7 @@ def run(ctx, db, tier):
     enqueue(ctx, db)
     resume_all(ctx, db)
     stop(ctx, db)
+    always_suspends(ctx, db)
     # co_await pool(awaitable): the pool's awaiter registers with the awaited object; a refused registration (already resolved) must
     # resume at once, so its answer has to reach the language (returned from await_suspend) or be branched on
     from . import C02
@@ -435,3 +436,29 @@ def run_async_owned(ctx, db):
                         work.append((lf, owned))
     if n == 0:
         raise Broken('thread_pool::run(async&) never starts the coroutine: anchor changed')
+
+
+def always_suspends(ctx, db):
+    """co_await pool: the queue item built in await_suspend owns the awaiter and continues the coroutine exactly once whatever happens to it
+    (run by a worker, or destroyed by a stopped pool).  So await_suspend itself must always suspend: an answer "do not suspend" lets the
+    coroutine run on while the item - refused, dropped or still queued - continues it a second time"""
+    rid = ctx.rule('C11.pool-awaiter-always-suspends', 'PATHS', 'thread_pool::co_awaiter::await_suspend hands the coroutine to a queue item on every path and answers "suspended" unconditionally '
+                   '(void, or constant true): the item is the only continuation of the coroutine', floor=1)
+    T = htracer(db)
+    seen = set()
+    for f in db.need('cocls::thread_pool::co_awaiter::await_suspend'):
+        if f['key'] in seen:
+            continue
+        seen.add(f['key'])
+        trs = [t for t in T.traces(f) if live(t)]
+        ctx.paths(rid, len(trs))
+        bad = None
+        for tr in trs:
+            enq = [c for c in calls(tr) if norm(c.get('callee')) in ('cocls::thread_pool::enqueue', 'cocls::thread_pool::run_detached') and c.get('depth', 0) == 0]
+            ret = [it for it in tr if it.k == 'return' and it.get('depth', 0) == 0 and it.get('path')]
+            if len(enq) != 1:
+                bad = bad or ('the coroutine is handed to the pool %d times' % len(enq), tr)
+            elif ret and ret_const(tr) != 1:
+                bad = bad or ('await_suspend answers %s: when it says "not suspended" the coroutine continues while the queue item built for it resumes it again' % (ret_expr(tr) or ret_const(tr)), tr)
+        ctx.ob(rid, f, f['key'], bad is None and bool(trs), 'co_await pool always suspends; the queue item continues the coroutine' + ('' if not bad else ' -- ' + bad[0]), desc=bad[0] if bad else None,
+               trace=fmt_trace(bad[1]) if bad else None)
